@@ -255,7 +255,12 @@ func genC12(tier string) []*Scenario {
 	var out []*Scenario
 	// cache twins: the C01 alphabet (fixpoint) ...
 	for _, cb := range []bool{false, true} {
-		ev := cacheAlphabet(lvl, cb)
+		// (the quick alphabet also in the thorough tier: the product with the 7-TTL alphabet does not reach
+		// its fixpoint within the budget; the thorough tier adds the bulk macro events instead)
+		ev := cacheAlphabet(0, cb)
+		if lvl >= 1 {
+			ev = append(ev, CIn{Op: CBulkInsert}, CIn{Op: CBulkDelete}, CIn{Op: CSet, K: 0, V: 1, D: 5})
+		}
 		// ... extended with nil values
 		ev = append(ev, CIn{Op: CSet, K: 0, V: 0, D: durNoExp}, CIn{Op: CGetOrSet, K: 1, V: 0, D: 2}, CIn{Op: CCompute, K: 0, V: 0, Fn: FnSet, D: durNoExp})
 		name := fmt.Sprintf("C12/twins/Cache~CacheOf/callback=%v", cb)
